@@ -99,9 +99,30 @@ BODIES = {
 }
 
 
+def registry_paths(doc: dict) -> list[tuple[str, str]] | str:
+    """(container path, name) of every registry entry below a container of SCHEMA_PATHS that is loaded after
+    JsonSchemaParser.parse_raw — the named schemas that became definitions, each under the path it was parsed under"""
+    from datamodel_code_generator.parser.jsonschema import JsonSchemaParser
+
+    try:
+        with watchdog(20.0), warnings.catch_warnings(), contextlib.redirect_stderr(io.StringIO()):
+            warnings.simplefilter("ignore")
+            parser = JsonSchemaParser(json.dumps(doc))
+            parser.parse_raw()
+    except Exception as e:  # noqa: BLE001
+        return f"{type(e).__name__}: {str(e)[:200]}"
+    out = []
+    for path, ref in parser.model_resolver.references.items():
+        for cont in JsonSchemaParser.SCHEMA_PATHS:
+            if ref.loaded and path.startswith(cont + "/") and "/" not in path[len(cont) + 1:]:
+                out.append((cont, path[len(cont) + 1:]))
+    return sorted(out)
+
+
 def campaign_containers(ck: Check, n: int) -> None:
-    camp = ck.campaign("Bounds.pickContainer + Bounds.walkNamed vs JsonSchemaParser / OpenAPIParser (which named schemas of definitions / $defs / "
-                       "components.schemas become top-level definitions, for bodies that are empty, annotation-only, typed, or not a mapping)")
+    camp = ck.campaign("Bounds.walkDoc (walkContainers over SCHEMA_PATHS) + Bounds.walkNamed vs JsonSchemaParser / OpenAPIParser (which named schemas of "
+                       "definitions / $defs / components.schemas become top-level definitions and under which registry path, for documents with one or "
+                       "both containers — the same name in both included — and bodies that are empty, annotation-only, typed, or not a mapping)")
     t0 = time.time()
     rng = ck.rng.fork("containers")
     names_pool = ["Aa", "Bb", "Cc", "Dd", "Ee"]
@@ -123,39 +144,63 @@ def campaign_containers(ck: Check, n: int) -> None:
         doc = {"$schema": "http://json-schema.org/draft-07/schema#"}
         conts = []
         for key in rng.shuffle(["definitions", "$defs"]):
-            c = rng.below(4)
+            c = rng.below(5)
             if c == 0:
                 continue  # key absent
             entries = [] if c == 1 else [(pool.pop(), *body()) for _ in range(rng.range(1, 2))]
+            if conts and conts[0][1] and entries and rng.chance(1, 3):
+                # the SAME name in both containers (two registry paths), with the same or another body
+                nm0, kd0, b0 = conts[0][1][0]
+                entries[0] = (nm0, kd0, b0) if rng.chance(1, 3) else (nm0, *body())
+            if conts and conts[0][1] and entries and entries[0][1] != "notmapping" and rng.chance(1, 4):
+                # an entry of this container referenced from the other one
+                tgt = entries[0][0]
+                conts[0][1].append(("Ref", "typed", {"type": "object", "properties": {"r": {"$ref": f"#/{key}/{tgt}"}}}))
+                doc[conts[0][0]]["Ref"] = conts[0][1][-1][2]
             doc[key] = {nm: b for nm, _, b in entries}
             conts.append((key, entries))
         cases.append((doc, "jsonschema", conts))
-    picks = ["defs.pick " + " ".join("(" + " ".join([hx(k)] + [hx(nm) for nm, _, _ in es]) + ")" for k, es in conts)
-             for _, t, conts in cases if t == "jsonschema"]
-    pick_replies = iter(ck.driver.run(picks))
-    walked: list[list[tuple[str, str, Any]]] = []
+    js = [(doc, conts) for doc, t, conts in cases if t == "jsonschema"]
+    doc_replies = iter(ck.driver.run(["defs.doc " + " ".join("(" + " ".join([hx(k)] + [f"({hx(nm)} {kd})" for nm, kd, _ in es]) + ")" for k, es in conts)
+                                      for _, conts in js]))
+    oa_replies = iter(ck.driver.run(["defs.walk " + " ".join(f"({hx(nm)} {kd})" for nm, kd, _ in conts[0][1]) for _, t, conts in cases if t == "openapi"]))
     for doc, t, conts in cases:
-        if t == "openapi":
-            walked.append(conts[0][1])
-            continue
-        rep = next(pick_replies)
-        names = [unhx(x) for x in rep.split(" ")[1:] if x] if rep.startswith("ok") else None
-        by_name = {nm: (nm, kd, b) for _, es in conts for nm, kd, b in es}
-        walked.append([by_name[nm] for nm in names] if names is not None else [("?", "notmapping", None)])
-    replies = ck.driver.run(["defs.walk " + " ".join(f"({hx(nm)} {kd})" for nm, kd, _ in es) for es in walked])
-    for (doc, t, conts), rep in zip(cases, replies):
         camp.evaluations += 1
-        model = sorted(unhx(x) for x in rep.split(" ")[1:] if x) if rep.startswith("ok") else rep
         res = run_gen(json.dumps(doc), t)
-        impl = sorted(c for c in class_map(res.code) if c != "Model") if res.ok else "error"
+        classes = sorted(c for c in class_map(res.code) if c != "Model") if res.ok else "error"
         shape = t + ":" + ("+".join(f"{k}:{'empty' if not es else 'filled'}" for k, es in sorted(conts)) or "none")
         camp.hit(shape)
         for _, es in conts:
             for _, kd, _ in es:
                 camp.hit(f"body:{kd}:{t}")
         camp.distinct.add(json.dumps(doc, sort_keys=True))
+        if t == "openapi":
+            rep = next(oa_replies)
+            model: Any = sorted(unhx(x) for x in rep.split(" ")[1:] if x) if rep.startswith("ok") else rep
+            impl: Any = classes
+        else:
+            rep = next(doc_replies)
+            if rep.startswith("ok"):
+                pairs = sorted(tuple(unhx(x) for x in item.strip("()").split(" ")) for item in re.findall(r"\([^()]*\)", rep))
+                names = [nm for _, nm in pairs]
+                twice = sorted({nm for nm in names if names.count(nm) > 1})
+                if twice:
+                    camp.hit("same_name_in_both_containers")
+                # classes: one per walked entry, named like the entry; for a name that sits in both containers the second class
+                # gets a suffix — `1` (ModelResolver.add, unique=True) or `Model` (a name reserved by a $ref before the entry is
+                # parsed, renamed by the per-module pass; both C06) — unless the duplicate-model pass merges two identical ones
+                model = {"paths": pairs, "classes": sorted(set(names))}
+                reg = registry_paths(doc)
+                if isinstance(classes, list):
+                    extra = [c for c in classes if c not in names]
+                    ok_extra = all(any(c in (nm + "1", nm + "Model") for nm in twice) for c in extra) and len(extra) <= len(twice)
+                    impl = {"paths": reg, "classes": sorted(set(classes) - set(extra)) if ok_extra else classes}
+                else:
+                    impl = {"paths": reg, "classes": f"{res.error_type}: {res.error_msg}"}
+            else:
+                model, impl = rep, ("error" if not res.ok else {"classes": classes})
         if model != impl:
-            ck.disagree(camp, doc, model, impl if res.ok else f"{res.error_type}: {res.error_msg}")
+            ck.disagree(camp, doc, model, impl)
         elif len(camp.samples) < 2 and any(kd == "empty" for _, es in conts for _, kd, _ in es) and res.ok:
             camp.samples.append({"document": doc, "definitions": impl})
     camp.wall_s = time.time() - t0
@@ -654,27 +699,46 @@ CORPUS = [
 ]
 
 
+BOTH_SCHEMAS = {
+    "Aa": {"type": "object", "properties": {"x": {"type": "integer"}}},
+    "Bb": {"type": "object", "properties": {"y": {"type": "integer"}}},
+    "Cc": {"type": "string", "enum": ["on", "off"]},
+    "Dd": {},
+}
+BOTH_SPLITS = [(["Aa"], ["Bb"]), (["Bb"], ["Aa"]), (["Aa", "Cc"], ["Bb"]), (["Aa"], ["Dd", "Cc", "Bb"])]
+
+
 def both_containers_case() -> tuple[str, str] | None:
-    """The explicit check: a document with BOTH `definitions` and `$defs` — are both walked?"""
-    doc = {"$schema": "http://json-schema.org/draft-07/schema#",
-           "definitions": {"Aa": {"type": "object", "properties": {"x": {"type": "integer"}}}},
-           "$defs": {"Bb": {"type": "object", "properties": {"y": {"type": "integer"}}}}}
-    res = run_gen(json.dumps(doc), "jsonschema")
-    if not res.ok:
-        return ("generate_error", f"{res.error_type}: {res.error_msg}")
-    have = set(class_map(res.code)) - {"Model"}
-    if have != {"Aa", "Bb"}:
-        return ("container_not_walked", f"definitions holds Aa and $defs holds Bb, but the classes are {sorted(have)}")
+    """The explicit check: documents with BOTH `definitions` and `$defs` (either key first) — the same named schemas
+    split over the two containers give the classes that one container holding all of them gives."""
+    for in_defs, in_dollar in BOTH_SPLITS:
+        one = {"$schema": "http://json-schema.org/draft-07/schema#", "definitions": {k: BOTH_SCHEMAS[k] for k in in_defs + in_dollar}}
+        ref = run_gen(json.dumps(one), "jsonschema")
+        if not ref.ok:
+            return ("generate_error", f"{ref.error_type}: {ref.error_msg}")
+        want = {k: v for k, v in class_map(ref.code).items() if k != "Model"}
+        for order in (("definitions", "$defs"), ("$defs", "definitions")):
+            parts = {"definitions": {k: BOTH_SCHEMAS[k] for k in in_defs}, "$defs": {k: BOTH_SCHEMAS[k] for k in in_dollar}}
+            doc = {"$schema": "http://json-schema.org/draft-07/schema#", **{k: parts[k] for k in order}}
+            res = run_gen(json.dumps(doc), "jsonschema")
+            if not res.ok:
+                return ("generate_error", f"{res.error_type}: {res.error_msg}")
+            have = {k: v for k, v in class_map(res.code).items() if k != "Model"}
+            if set(have) != set(want):
+                return ("container_not_walked", f"definitions holds {in_defs} and $defs holds {in_dollar} (document key order {list(order)}), but the classes are {sorted(have)}")
+            diff = sorted(k for k in want if have[k] != want[k])
+            if diff:
+                return ("classes_differ", f"definitions {in_defs} + $defs {in_dollar}: {diff} differ from the classes of the same schemas under one container: {show_class(res.code, diff[0])}")
     return None
 
 
 def campaign_both_containers(ck: Check) -> None:
-    camp = ck.campaign("explicit: a document with both `definitions` and `$defs`")
-    camp.evaluations += 1
-    camp.distinct.add("both")
+    camp = ck.campaign("explicit: named schemas split over `definitions` and `$defs` (both key orders) vs the same schemas under one container")
+    camp.evaluations += 2 * len(BOTH_SPLITS)
+    camp.distinct.update(f"{a}|{b}|{o}" for a, b in BOTH_SPLITS for o in (0, 1))
     r = both_containers_case()
     if r is not None:
-        camp.hit("second_container_lost")
+        camp.hit("second_container_lost" if r[0] == "container_not_walked" else r[0])
         ck.fail({"oracle": "equivalent_inputs", "pair": "both_containers", "mechanism": r[0], "trigger": "none", "style": ""},
                 {"pair": "both_containers"}, r[1])
     else:
@@ -684,10 +748,7 @@ def campaign_both_containers(ck: Check) -> None:
 def known_findings(ck: Check) -> None:
     for f in ck.findings:
         w = f["witness"]
-        if w.get("pair") == "both_containers":
-            r = both_containers_case()
-        else:
-            r = run_pair(w["pair"], w["definitions"], w.get("with_root", True), w.get("variant", 0))
+        r = run_pair(w["pair"], w["definitions"], w.get("with_root", True), w.get("variant", 0))
         if r is not None:
             ck.known(f["id"], f["what"])
 
